@@ -338,7 +338,7 @@ func (w *World) Seq(reqs []proto.Req) ([]proto.Resp, error) {
 		ro := (r.Kind == "http" || r.Kind == "") && (r.Method == "GET" || r.Method == "HEAD")
 		if r.Kind == "store" && r.Store != nil {
 			switch r.Store.Op {
-			case "get", "getrange", "keysinrange", "sendkeysinrange", "processrange", "rawrange":
+			case "get", "getrange", "keysinrange", "sendkeysinrange", "processrange", "rawrange", "rawdump":
 				ro = true
 			}
 		}
